@@ -1,0 +1,129 @@
+//go:build verif
+
+// Poisoning of returned packet buffers (build tag verif, only with a tracker installed).
+// PacketPool.Put makes the buffer useless for whoever still holds a reference: the payload is
+// filled with a pattern, RawPacket is cleared and Link is replaced by a stand-in that reports
+// every call. PacketPool.Get (which resets the whole Packet anyway) first checks that nobody
+// wrote to the buffer while it was in the pool. Correct code never looks at a packet between its
+// Put and the next Get, so nothing changes for it. Add-only.
+
+package router
+
+import (
+	"fmt"
+
+	"github.com/scionproto/scion/pkg/addr"
+	"github.com/scionproto/scion/router/bfd"
+)
+
+const verifPoisonByte = 0xA5
+
+// verifPoisonLink is what Packet.Link refers to while the buffer is in the pool.
+type verifPoisonLink struct {
+	t    *VerifPoolTracker
+	tok  int
+	orig Link // the link the packet referred to when it was returned (guarded by t.mu)
+}
+
+var _ Link = (*verifPoisonLink)(nil)
+
+// report logs the use of a returned buffer and yields the link the packet had before.
+func (l *verifPoisonLink) report(method string) Link {
+	id, stage := verifPoolWho()
+	l.t.mu.Lock()
+	defer l.t.mu.Unlock()
+	g := l.t.thread(id, stage)
+	l.t.violate(fmt.Sprintf(
+		"use after Put: Link.%s of buffer %d called by stage %d after the buffer was returned",
+		method, l.tok, stage))
+	l.t.log(VerifPoolUse, l.tok, g)
+	return l.orig
+}
+
+func (l *verifPoisonLink) IsUp() bool {
+	if o := l.report("IsUp"); o != nil {
+		return o.IsUp()
+	}
+	return false
+}
+
+func (l *verifPoisonLink) IfID() uint16 {
+	if o := l.report("IfID"); o != nil {
+		return o.IfID()
+	}
+	return 0
+}
+
+func (l *verifPoisonLink) Metrics() *InterfaceMetrics {
+	if o := l.report("Metrics"); o != nil {
+		return o.Metrics()
+	}
+	return newInterfaceMetrics(metrics, 0, 0, "", 0)
+}
+
+func (l *verifPoisonLink) Scope() LinkScope {
+	if o := l.report("Scope"); o != nil {
+		return o.Scope()
+	}
+	return Internal
+}
+
+func (l *verifPoisonLink) BFDSession() *bfd.Session {
+	if o := l.report("BFDSession"); o != nil {
+		return o.BFDSession()
+	}
+	return nil
+}
+
+func (l *verifPoisonLink) Resolve(p *Packet, dst addr.Host, port uint16) error {
+	if o := l.report("Resolve"); o != nil {
+		return o.Resolve(p, dst, port)
+	}
+	return nil
+}
+
+// Send and SendBlocking on the link of a returned buffer: refuse, the caller's packet is
+// whatever it is.
+func (l *verifPoisonLink) Send(p *Packet) bool {
+	l.report("Send")
+	return false
+}
+
+func (l *verifPoisonLink) SendBlocking(p *Packet) { l.report("SendBlocking") }
+
+// poison is called by onPut (t.mu held) for pool buffer tok.
+func (t *VerifPoolTracker) poison(pkt *Packet, tok int) {
+	for len(t.poisonLinks) <= tok {
+		t.poisonLinks = append(t.poisonLinks, &verifPoisonLink{t: t, tok: len(t.poisonLinks)})
+		t.poisoned = append(t.poisoned, false)
+	}
+	pl := t.poisonLinks[tok]
+	if _, already := pkt.Link.(*verifPoisonLink); !already {
+		pl.orig = pkt.Link
+	}
+	pkt.Link = pl
+	pkt.RawPacket = nil
+	for i := range pkt.buffer {
+		pkt.buffer[i] = verifPoisonByte
+	}
+	t.poisoned[tok] = true
+}
+
+// checkPoison is called by onGet (t.mu held) before the packet is reset.
+func (t *VerifPoolTracker) checkPoison(pkt *Packet, tok int, stage int) {
+	if tok >= len(t.poisoned) || !t.poisoned[tok] {
+		return
+	}
+	t.poisoned[tok] = false
+	if pkt.Link != Link(t.poisonLinks[tok]) || pkt.RawPacket != nil {
+		t.violate(fmt.Sprintf("write after Put: the Packet struct of buffer %d was modified "+
+			"while it was in the pool (seen at the Get by stage %d)", tok, stage))
+	}
+	for i := range pkt.buffer {
+		if pkt.buffer[i] != verifPoisonByte {
+			t.violate(fmt.Sprintf("write after Put: byte %d of buffer %d was overwritten while "+
+				"it was in the pool (seen at the Get by stage %d)", i, tok, stage))
+			break
+		}
+	}
+}
